@@ -74,7 +74,7 @@ def fieldsWf (all : List Field) : Nat → List Field → Bool
     f.guardOk all pos &&
     (!f.optional || (f.dflt != .missing && f.ty.primOrArr)) &&
     (f.ty.noTicket || (f.ty.isTicket && fs.isEmpty)) &&
-    f.ty.pos &&
+    f.ty.pos && f.ty.arrOk &&
     fieldsWf all (pos + 1) fs
 
 def MsgSchema.wf (s : MsgSchema) : Bool :=
